@@ -216,6 +216,7 @@ mapping = {'key': 'item'}
 obs(f'hello {name!r:>{width}} {value:.2f} {mapping["key"]} {"quoted"}')
 obs(f'{name=} {{literal}} {value + 1 = }')
 obs(f"{'nested ' f'{name}'}")
+obs(f'{b"bytes"!r} {len(b"it is")} {b"" in b"abc"} {name in "world"}')
 '''),
     ('repeated_literals', '''
 def labels():
